@@ -221,6 +221,11 @@ pub fn boundary_numerals(mx: u64) -> Vec<String> {
         v.push(format!("{}a", d));
         v.push(format!("{}.0", d));
         v.push(format!("{}_", d));
+        // characters that lenient parsers tend to swallow: line ends, tabs, NUL, separators, exponents
+        for t in ["\n", "\r", "\r\n", "\t", "\0", ",", "e0", "u8", "\u{a0}"] {
+            v.push(format!("{}{}", d, t));
+            v.push(format!("{}{}", t, d));
+        }
     }
     v.push("18446744073709551616".to_string());
     v.push("340282366920938463463374607431768211456".to_string());
